@@ -443,12 +443,6 @@ package netty
 //@ assume iface Executor.Exec
 //@   requires recv != nil
 //@ assume functype context.CancelFunc
-//@ assume iface transport.Transport.Write
-//@   may_panic false
-//@ assume iface transport.Transport.Writev
-//@ assume iface transport.Transport.Flush
-//@ assume iface transport.Transport.Close
-//@ assume iface transport.Transport.SetWriteDeadline
 
 // what "Close has returned" leaves behind (stable: closed is monotone, a closed Done channel stays closed)
 //@ spec func closedState(c *channel) bool = c.closed == 1 && chclosed(ctxdone(c.ctx))
@@ -494,3 +488,83 @@ package netty
 //@   ensures cancelled: implies(count("select recv ctx.Done()") == 1, result1 != nil && count("select send c.writeQueue") == 0)
 //@   ensures closed_branch_fails: implies(count("select recv c.ctx.Done()") == 1, result1 != nil)
 //@   ensures closed_rejects: implies(old(closedState(c)), result1 != nil && count("select send c.writeQueue") == 0)
+
+// events enter the pipeline through these (the concrete *pipeline methods are verified above);
+// handlers behind them are arbitrary code: may panic, may modify anything but pipeline/context/
+// channel configuration fields
+//@ assume iface Pipeline.FireChannelActive
+//@   may_panic true
+//@   modifies all
+//@   preserves handlerContext.*, pipeline.*, ghost node, ghost pos, channel.ctx, channel.cancel, channel.transport, channel.executor, channel.pipeline, channel.writeQueue, channel.untilWrite, channel.writeBuffers, channel.recycleBuffers, channel.id, channel.closed
+//@ assume iface Pipeline.FireChannelRead
+//@   may_panic true
+//@   modifies all
+//@   preserves handlerContext.*, pipeline.*, ghost node, ghost pos, channel.ctx, channel.cancel, channel.transport, channel.executor, channel.pipeline, channel.writeQueue, channel.untilWrite, channel.writeBuffers, channel.recycleBuffers, channel.id, channel.closed
+//@ assume iface Pipeline.FireChannelWrite
+//@   may_panic true
+//@   modifies all
+//@   preserves handlerContext.*, pipeline.*, ghost node, ghost pos, channel.ctx, channel.cancel, channel.transport, channel.executor, channel.pipeline, channel.writeQueue, channel.untilWrite, channel.writeBuffers, channel.recycleBuffers, channel.id, channel.closed
+//@ assume iface Pipeline.FireChannelInactive
+//@   may_panic true
+//@   modifies all
+//@   preserves handlerContext.*, pipeline.*, ghost node, ghost pos, channel.ctx, channel.cancel, channel.transport, channel.executor, channel.pipeline, channel.writeQueue, channel.untilWrite, channel.writeBuffers, channel.recycleBuffers, channel.id, channel.closed
+//@ assume iface Pipeline.FireChannelEvent
+//@   may_panic true
+//@   modifies all
+//@   preserves handlerContext.*, pipeline.*, ghost node, ghost pos, channel.ctx, channel.cancel, channel.transport, channel.executor, channel.pipeline, channel.writeQueue, channel.untilWrite, channel.writeBuffers, channel.recycleBuffers, channel.id, channel.closed
+
+//@ func (*channel).invokeMethod
+//@   inline
+//@ func (*channel).IsActive
+//@   inline
+
+//@ func (*channel).Close
+//@   event
+//@   mode intwrap
+//@   requires chinv(c)
+//@   modifies all
+//@   preserves handlerContext.*, pipeline.*, ghost node, ghost pos, channel.ctx, channel.cancel, channel.transport, channel.executor, channel.pipeline, channel.writeQueue, channel.untilWrite, channel.writeBuffers, channel.recycleBuffers, channel.id, channel.closed
+//@   loop 0 modifies none
+//@   loop 0 emits
+//@   loop 0 invariant chinv(c)
+//@   ensures elected_by_cas: evis(0, "cas c.closed") && evarg(0, 0) == 0 && evarg(0, 1) == 1 && count("cas c.closed") >= 1
+//@   ensures loser_does_nothing: implies(!evres(0, 0), nemitted() == 1)
+//@   ensures closed_on_return: c.closed == 1
+//@   ensures winner_closes_once: implies(evres(0, 0), count("net.Conn.Close") == 1 && count("context.CancelFunc") == 1 && count("Pipeline.FireChannelInactive") == 1 && count("cas c.closed") == 1)
+//@   ensures winner_order: implies(evres(0, 0), first("net.Conn.Close") < first("context.CancelFunc") && first("context.CancelFunc") < first("Pipeline.FireChannelInactive") && evrecv(first("net.Conn.Close")) == old(c.transport) && evarg(first("context.CancelFunc"), 0) == old(c.cancel) && evrecv(first("Pipeline.FireChannelInactive")) == old(c.pipeline))
+//@   ensures inactive_carries_the_winning_error: implies(evres(0, 0), evarg(first("Pipeline.FireChannelInactive"), 0) == err)
+//@   ensures sync_channel_does_not_wait: implies(evres(0, 0) && old(c.writeQueue) == nil, count("load c.running") == 0 && count("time.Sleep") == 0)
+//@   ensures waits_for_sender: implies(evres(0, 0) && old(c.writeQueue) != nil && old(c.untilWrite), evis(first("net.Conn.Close") - 1, "load c.running") && evres(first("net.Conn.Close") - 1, 0) == 0)
+//@   ensures observes_queue_empty_then_idle: implies(evres(0, 0) && old(c.writeQueue) != nil && old(c.untilWrite), evis(first("net.Conn.Close") - 2, "len c.writeQueue") && evres(first("net.Conn.Close") - 2, 0) == 0)
+//@ order (*channel).Close: "cas c.closed" dominates "net.Conn.Close"
+
+// The background sender. One activation owns the sender token (running == 1) from its start
+// until it stores idle; it drains the queue in FIFO batches.
+//@ spec func bufInv(c *channel) bool = c.writeBuffers != nil && c.recycleBuffers != nil && cap(c.writeBuffers) == cap(c.recycleBuffers) && cap(c.writeBuffers) >= 1 && arrof(c.writeBuffers) != arrof(c.recycleBuffers) && cap(c.writeBuffers) == cap(c.writeQueue)/2 + 1
+//@ func (*channel).writeOnce
+//@   requires asyncInv(c) && bufInv(c)
+//@   modifies all
+//@   preserves handlerContext.*, pipeline.*, ghost node, ghost pos, channel.ctx, channel.cancel, channel.transport, channel.executor, channel.pipeline, channel.writeQueue, channel.untilWrite, channel.writeBuffers, channel.recycleBuffers, channel.id, channel.closed
+//@   loop 0 modifies elems([]byte), ghost pooltyp, cell([]byte), channel.running
+//@   loop 0 emits
+//@   loop 0 invariant config: asyncInv(c) && bufInv(c)
+//@   loop 0 invariant released_at_most_once: count("store c.running") <= 1
+//@   loop 0 invariant continue_means_owner: implies(nemitted() > 0 && count("store c.running") == 1, evis(nemitted()-1, "cas c.running") && evres(nemitted()-1, 0) && evarg(nemitted()-1, 0) == 0 && evarg(nemitted()-1, 1) == 1 && evis(nemitted()-2, "len c.writeQueue") && evres(nemitted()-2, 0) > 0 && evis(nemitted()-3, "store c.running") && evis(nemitted()-4, "Transport.Flush"))
+//@   loop 0 invariant continue_without_release: implies(nemitted() > 0 && count("store c.running") == 0, count("Transport.Flush") == 0 && evis(nemitted()-1, "len c.writeQueue") && evres(nemitted()-1, 0) > 0)
+//@   loop 1 modifies elems([]byte)
+//@   loop 1 emits
+//@   loop 1 invariant shape: len(sendBuffers) == len(recycleBuffers) && len(sendBuffers) <= cap(sendBuffers) && cap(sendBuffers) == cap(c.writeBuffers) && cap(recycleBuffers) == cap(c.recycleBuffers) && arrof(sendBuffers) == arrof(c.writeBuffers) && arrof(recycleBuffers) == arrof(c.recycleBuffers) && sendBuffers != nil && recycleBuffers != nil
+//@   loop 1 invariant pairs: forall(k, 0, len(sendBuffers), sameslice(sendBuffers[k], recycleBuffers[k]))
+//@   loop 1 invariant one_packet_per_iteration: implies(nemitted() > 0, nemitted() == 2 && evis(0, "select nonblocking") && evis(1, "select recv c.writeQueue") && len(sendBuffers) >= 1 && sameslice(sendBuffers[len(sendBuffers)-1], evres(1, 0)))
+//@   loop 1 decreases cap(sendBuffers) - len(sendBuffers)
+//@   loop 2 modifies elems([]byte), ghost pooltyp, cell([]byte)
+//@   loop 2 emits
+//@   loop 2 invariant idx: -1 <= rangeindex && rangeindex < len(recycleBuffers)
+//@   loop 2 invariant one_put_per_packet: implies(nemitted() > 0, nemitted() == 1 && evis(0, "pbytes.Put") && at(0, arrof(*evarg(0, 0)) == arrof(recycleBuffers[rangeindex]) && len(*evarg(0, 0)) == 0))
+//@   loop 2 decreases len(recycleBuffers) - rangeindex
+//@   ensures flush_release_recheck: implies(count("netty.channel.Close") == 0, count("store c.running") == 1 && evis(last("store c.running") - 1, "Transport.Flush") && evis(last("store c.running") + 1, "len c.writeQueue") && evarg(last("store c.running"), 0) == 0)
+//@   ensures exit_when_empty_or_other_owner: implies(count("netty.channel.Close") == 0, (evres(last("store c.running") + 1, 0) == 0 && nemitted() == last("store c.running") + 2) || (evres(last("store c.running") + 1, 0) > 0 && evis(nemitted()-1, "cas c.running") && !evres(nemitted()-1, 0) && nemitted() == last("store c.running") + 3))
+//@   ensures failure_releases_then_closes: implies(count("netty.channel.Close") == 1, evis(nemitted()-1, "netty.channel.Close") && evis(nemitted()-2, "store c.running") && evarg(nemitted()-2, 0) == 0 && evarg(nemitted()-1, 0) == c && evarg(nemitted()-1, 1) != nil)
+//@ order (*channel).writeOnce: "BuffersWriter.Writev" dominates "pbytes.Put"
+//@ order (*channel).writeOnce: "Transport.Flush" dominates "store c.running"
+//@ order (*channel).writeOnce: "store c.running" dominates "cas c.running"
